@@ -1,5 +1,5 @@
 // ---------------------------------------------------------------------------------------------
-// U-roundtrip, glue (C09 / C10 / C17): where an event's bytes become the user's string. `BytesText::unescape[_with]` and
+// U-roundtrip, glue (C09 / C10): where an event's bytes become the user's string. `BytesText::unescape[_with]` and
 // `Attribute::{unescape_value[_with], decode_and_unescape_value[_with]}` DECODE the stored bytes with the given decoder and
 // hand the result to escape::unescape_with (verified in unit charref): the value is `unesc_ok` of the decoding -- for the
 // predefined entities the function `unescape_xml` --, so "every attribute value and text unescapes to the original string"
@@ -65,7 +65,7 @@ pub proof fn lemma_value_xml<'a, 'e, F: Fn(&str) -> Option<&'e str>>(dec: Decode
 impl Decoder {
     /// the decoder `Decoder::utf8()` makes (a unit struct without feature `encoding`)
     pub open spec fn spec_utf8() -> Decoder { Decoder {} }
-//@extract encoding::Decoder::decode_cow | src/encoding.rs :: impl Decoder :: fn decode_cow | serves=C09,C10,C17
+//@extract encoding::Decoder::decode_cow | src/encoding.rs :: impl Decoder :: fn decode_cow | serves=C09,C10
  fn decode_cow<'b>(
         &self,
         bytes: &Cow<'b, [u8]>,
@@ -89,7 +89,7 @@ impl Decoder {
 //@end
 }
 impl<'a> BytesText<'a> {
-//@extract events::BytesText::unescape_with | src/events/mod.rs :: impl<'a> BytesText<'a> :: fn unescape_with | serves=C09,C10,C17
+//@extract events::BytesText::unescape_with | src/events/mod.rs :: impl<'a> BytesText<'a> :: fn unescape_with | serves=C09,C10
 //@rewrite unescape_with<'entity>( ==> unescape_with<'entity, F: Fn(&str) -> Option<&'entity str>>(
 //@rewrite resolve_entity: impl FnMut(&str) -> Option<&'entity str>, ==> resolve_entity: F,
  pub fn unescape_with<'entity, F: Fn(&str) -> Option<&'entity str>>(
@@ -109,7 +109,7 @@ impl<'a> BytesText<'a> {
         }
     }
 //@end
-//@extract events::BytesText::unescape | src/events/mod.rs :: impl<'a> BytesText<'a> :: fn unescape | serves=C09,C10,C17
+//@extract events::BytesText::unescape | src/events/mod.rs :: impl<'a> BytesText<'a> :: fn unescape | serves=C09,C10
 //@rewrite self.unescape_with(resolve_predefined_entity) ==> { let f = |e: &str| resolve_predefined_entity(e); let r = self.unescape_with(f); r }
  pub fn unescape(&self) -> (r: Result<Cow<'a, str>, Error>)
         ensures value_post_xml(self.decoder, self.content@, r),
@@ -123,7 +123,7 @@ impl<'a> BytesText<'a> {
 //@end
 }
 impl<'a> Attribute<'a> {
-//@extract attributes::Attribute::decode_and_unescape_value_with | src/events/attributes.rs :: impl<'a> Attribute<'a> :: fn decode_and_unescape_value_with | serves=C09,C10,C17
+//@extract attributes::Attribute::decode_and_unescape_value_with | src/events/attributes.rs :: impl<'a> Attribute<'a> :: fn decode_and_unescape_value_with | serves=C09,C10
 //@rewrite decode_and_unescape_value_with<'entity>( ==> decode_and_unescape_value_with<'entity, F: Fn(&str) -> Option<&'entity str>>(
 //@rewrite resolve_entity: impl FnMut(&str) -> Option<&'entity str>, ==> resolve_entity: F,
  pub fn decode_and_unescape_value_with<'entity, F: Fn(&str) -> Option<&'entity str>>(
@@ -144,7 +144,7 @@ impl<'a> Attribute<'a> {
         }
     }
 //@end
-//@extract attributes::Attribute::unescape_value_with | src/events/attributes.rs :: impl<'a> Attribute<'a> :: fn unescape_value_with | serves=C09,C10,C17
+//@extract attributes::Attribute::unescape_value_with | src/events/attributes.rs :: impl<'a> Attribute<'a> :: fn unescape_value_with | serves=C09,C10
 //@rewrite unescape_value_with<'entity>( ==> unescape_value_with<'entity, F: Fn(&str) -> Option<&'entity str>>(
 //@rewrite resolve_entity: impl FnMut(&str) -> Option<&'entity str>, ==> resolve_entity: F,
  pub fn unescape_value_with<'entity, F: Fn(&str) -> Option<&'entity str>>(
@@ -158,7 +158,7 @@ impl<'a> Attribute<'a> {
         self.decode_and_unescape_value_with(Decoder::utf8(), resolve_entity)
     }
 //@end
-//@extract attributes::Attribute::decode_and_unescape_value | src/events/attributes.rs :: impl<'a> Attribute<'a> :: fn decode_and_unescape_value | serves=C09,C10,C17
+//@extract attributes::Attribute::decode_and_unescape_value | src/events/attributes.rs :: impl<'a> Attribute<'a> :: fn decode_and_unescape_value | serves=C09,C10
 //@rewrite self.decode_and_unescape_value_with(decoder, resolve_predefined_entity) ==> { let f = |e: &str| resolve_predefined_entity(e); let r = self.decode_and_unescape_value_with(decoder, f); r }
  pub fn decode_and_unescape_value(&self, decoder: Decoder) -> (r: XmlResult<Cow<'a, str>>)
         ensures value_post_xml(decoder, self.value@, r),
@@ -170,7 +170,7 @@ impl<'a> Attribute<'a> {
           r }
     }
 //@end
-//@extract attributes::Attribute::unescape_value | src/events/attributes.rs :: impl<'a> Attribute<'a> :: fn unescape_value | serves=C09,C10,C17
+//@extract attributes::Attribute::unescape_value | src/events/attributes.rs :: impl<'a> Attribute<'a> :: fn unescape_value | serves=C09,C10
 //@rewrite self.unescape_value_with(resolve_predefined_entity) ==> { let f = |e: &str| resolve_predefined_entity(e); let r = self.unescape_value_with(f); r }
  pub fn unescape_value(&self) -> (r: XmlResult<Cow<'a, str>>)
         ensures value_post_xml(Decoder::spec_utf8(), self.value@, r),
